@@ -120,7 +120,7 @@ def make_env(I, reg, dkf=(), dkr=(), anchored=False, classes=None):
     """Environment record for the strings interned so far.
 
     reg      StringSerializableRegistry in use
-    dkr      list of regex sources; matched with re.match (library) or anchored ^..$ (CLI)
+    dkr      list of regex sources; matched with re.match (library) or against the whole key (CLI)
     classes  pseudo-type classes whose acceptance is tabulated (default: the six built-in ones + reg's)
     """
     import re
@@ -139,7 +139,8 @@ def make_env(I, reg, dkf=(), dkr=(), anchored=False, classes=None):
             elif r is None:
                 weird.setdefault(sid, []).append(c.__name__)
         acc[sid] = a
-    pats = [re.compile(("^%s$" % r) if anchored else r) if isinstance(r, str) else r for r in dkr]
+    # "anchored at both ends" = the whole key matches the pattern (re.fullmatch), whatever the pattern's top-level operators are
+    pats = [re.compile(("(?:%s)\\Z" % r) if anchored else r) if isinstance(r, str) else r for r in dkr]
     dkrm = {sid: [i + 1 for i, p in enumerate(pats) if p.match(s)] for s, sid in I.ids.items()}
     return {
         "reg": [c.__name__ for c in reg.types],
